@@ -30,6 +30,7 @@ class FnSpec:
         self.closures = {}         # ordinal -> (param decl, text, vcline)
         self.external_body = False
         self.sig_replace = []      # (pattern, replacement)
+        self.sig_extra = []        # further ensures clauses (text, file, line), appended after sig
 
 
 class Vc:
@@ -50,7 +51,9 @@ class Vc:
         self.item_attrs = {}       # item name -> [attr text]
         self.derive_keep = {"Clone", "Copy", "PartialEq", "Eq"}
         self.structural = set()
+        self.keep_pub = set()
         self.drop_tags = set(defines.get('drop_tags', [])) if defines else set()
+        self.defs = set(defines.get('defs', [])) if defines else set()
         self.includes = []
         self.replace_types = []
         self.defines = defines or {}
@@ -74,11 +77,11 @@ class Vc:
             if tname is not None:
                 templates[tname].append((line, path, ln))
                 continue
-            if word == 'if-tag':
-                skipping = rest in self.drop_tags
+            if word == 'if-def':
+                skipping = rest not in self.defs
                 continue
-            if word == 'if-not-tag':
-                skipping = rest not in self.drop_tags
+            if word == 'if-ndef':
+                skipping = rest in self.defs
                 continue
             if word == 'endif':
                 skipping = False
@@ -132,6 +135,8 @@ class Vc:
                 self.postlude.append((text, p, ln))
             elif kind == 'sig':
                 fn.sig = (text, p, ln)
+            elif kind == 'sig+':
+                fn.sig_extra.append((text, p, ln))
             elif kind == 'at':
                 fn.ats.append(info + (text, p, ln))
             elif kind == 'loop':
@@ -168,6 +173,8 @@ class Vc:
                 self.inherent.append(rest)
             elif word == 'default-impl':
                 self.default_impls.append(rest)
+            elif word == 'keep-pub':
+                self.keep_pub.add(rest)
             elif word == 'structural':
                 self.structural.add(rest)
             elif word == 'replace-type':
@@ -186,6 +193,10 @@ class Vc:
                         raise VcError("%s:%d duplicate fn block %s" % (path, ln, nm))
                     self.fns[nm] = fn
                 self.fn_order.append(fn)
+            elif word == 'fn-extend':
+                fn = self.fns[rest.split()[0]]
+            elif word == 'sig+':
+                cur = ('sig+', None, path, ln + 1)
             elif word == 'ret':
                 fn.ret = rest
             elif word == 'attr':
@@ -454,9 +465,10 @@ class Extractor:
     def emit_adt(self, sf, it):
         edits = []
         self.attr_edits(sf, it, edits)
-        if it.vis:
-            edits.append((it.vis[0], it.vis[1], '', None))
-        self.strip_pub_edits(it.elems, edits)
+        if it.name not in self.vc.keep_pub:
+            if it.vis:
+                edits.append((it.vis[0], it.vis[1], '', None))
+            self.strip_pub_edits(it.elems, edits)
         for e in it.elems:
             if isinstance(e, Group):
                 self.inner_attr_edits(sf, e, edits)
@@ -633,6 +645,8 @@ class Extractor:
             if spec.sig:
                 text, p, ln = spec.sig
                 edits.append((it.body.start, it.body.start, '\n' + text + '\n' + indent, origin_fn(p, ln - 1), -2))
+                for k, (xt, xp, xl) in enumerate(spec.sig_extra):
+                    edits.append((it.body.start, it.body.start, xt + '\n' + indent, origin_fn(xp, xl), -1.9 + k * 0.01))
             self.anchor_edits(sf, it, body, spec, edits, q, origin_fn)
         self.closure_rewrites(sf, body, spec, edits, q, origin_fn)
         segs = self.render(sf, it.start, it.end, self.dedup(edits))
